@@ -10,7 +10,7 @@ THEOREMS = ["C08_lookup", "C08_lookup_unique", "C08_isolated_symbol", "C08_isola
             "C08_replay", "C08_replay_initial", "C08_pass_moves",
             "C08_noninterference", "C08_noninterference_labels", "C08_zderived"]
 RULE = ("generated nestings of blocks, named scopes, macro applications and loops with backward/forward/shadowing/"
-        "sibling-reuse placements; metamorphic twins: consistent renaming of a label, insertion of an unrelated definition "
+        "sibling-reuse placements, plus the full shadowing matrix (outer definition x container x inner definition x reference form, width-inferred operands included); metamorphic twins: consistent renaming of a label, insertion of an unrelated definition "
         "inside another scope (output must not change); out-of-scope references (must be rejected); references to "
         "scopename.label before and after the scope (must equal the label). Non-trivial: assembles and emits bytes")
 PROVED_NOTE = ("proved: value_for = innermost enclosing definition (function vs inductive specification, with fuel "
@@ -84,6 +84,35 @@ def cases(ctx):
         out.append({"kind": "shadow", "rom": rom, "spec": {"t": "twin", "labels": False},
                     "src": f"*={org:#08x}\nx:\nnop\n{{\nnop\nx:\n.dl x\n}}\n.dl x\n",
                     "twin_src": f"*={org:#08x}\nx:\nnop\n{{\nnop\ny:\n.dl y\n}}\n.dl x\n"})
+        # shadowing matrix: outer definition x container x inner definition (backward/forward label, '=' symbol
+        # before/after the use) x reference form.  Twin 1: the inner name renamed consistently.  A reference whose
+        # width is inferred (no suffix) cannot name something unknown in the label pass, so there the twin is the
+        # same program with the width written out: the bytes must name the INNER definition either way.
+        outer = {"label": "x:\nnop\n", "const": "x := 0x1234\n", "none": ""}
+        wrap = {"block": "{\n%s}\n", "scope": ".scope sc {\n%s}\n", "macro": ".macro mm() {\n%s}\nmm()\n",
+                "for": ".for i := 0, 1 {\n%s}\n", "macro2": ".macro mm() {\n%s}\nmm()\nmm()\n",
+                "if-in-block": "{\n.if 1 {\n%s}\n}\n"}
+        def inner(defk, ref, n):
+            r = ref.replace("X", n)
+            return {"back-label": f"{n}:\nnop\n{r}\n", "fwd-label": f"{r}\nnop\n{n}:\nrts\n",
+                    "sym-before": f"{n} = 0x12\n{r}\n", "sym-after": f"{r}\n{n} = 0x12\n"}[defk]
+        sized = [".dw X", "lda.w X", "jmp.w X", "lda.l X", ".dl X + 1", "lda.b #X & 0xFF"]
+        unsized = {"lda X": "lda.w X", "jmp X": "jmp.w X", "lda #X": "lda.w #X", "sta X,x": "sta.w X,x"}
+        for o in outer:
+            tail = ".dl x\n" if o != "none" else ""
+            for c in wrap:
+                for d in ("back-label", "fwd-label", "sym-before", "sym-after"):
+                    for ref in sized + (list(unsized) if (o == "none" or d == "back-label") else []):
+                        if c == "if-in-block" and d.startswith("sym"):
+                            continue
+                        out.append({"kind": f"shadow:{o}:{c}:{d}:{ref}", "rom": rom, "spec": {"t": "twin", "labels": False},
+                                    "src": f"*={org:#08x}\n" + outer[o] + wrap[c] % inner(d, ref, "x") + tail,
+                                    "twin_src": f"*={org:#08x}\n" + outer[o] + wrap[c] % inner(d, ref, "yy") + tail})
+                if o != "none" and rom == "low":     # (the inferred width is that of the OUTER value: 16 bits, as the inner one)
+                    for ref, wide in unsized.items():
+                        out.append({"kind": f"shadow-width:{o}:{c}:{ref}", "rom": rom, "spec": {"t": "twin", "labels": True},
+                                    "src": f"*={org:#08x}\n" + outer[o] + wrap[c] % inner("fwd-label", ref, "x") + tail,
+                                    "twin_src": f"*={org:#08x}\n" + outer[o] + wrap[c] % inner("fwd-label", wide, "x") + tail})
         # export: scope.name equals the label, referenced before and after the scope
         for before in (True, False):
             for inner in ("lab:\nnop\n", "nop\nnop\nlab:\nrts\n", ".db 1,2,3\nlab:\n"):
